@@ -5,6 +5,7 @@ import (
 	"context"
 	"fmt"
 	"sync"
+	"time"
 
 	"github.com/bradenaw/juniper/xsync"
 
@@ -22,6 +23,11 @@ type Params struct {
 	// Late: further waiters that enter Wait while the Broadcast is being issued (they are not among
 	// the k, so nothing is demanded for them; they must not cost any of the k its wake-up).
 	Late int
+	// Shared: the Locker is the read side of a reader/writer lock (sync.RWMutex.RLocker()), so
+	// several waiters can be inside Wait's prologue at once.
+	Shared bool
+	// Both: with Broadcast, a second thread issues M Signals at the same time.
+	Both bool
 }
 
 func (p Params) Name() string {
@@ -29,12 +35,18 @@ func (p Params) Name() string {
 	if p.Late > 0 {
 		s += fmt.Sprintf("/lateWaiters=%d", p.Late)
 	}
+	if p.Shared {
+		s += "/L=RLocker"
+	}
+	if p.Both {
+		s += "/signals-race-the-broadcast"
+	}
 	return s
 }
 
 func (p Params) Body() func() {
 	return func() {
-		l := &hx.Locker{}
+		l := &hx.Locker{Shared: p.Shared}
 		entered := make(chan struct{}, p.K)
 		l.OnUnlock = func() {
 			select {
@@ -58,6 +70,13 @@ func (p Params) Body() func() {
 		for i := range ctxs {
 			ctxs[i], cancels[i] = context.WithCancel(context.Background())
 		}
+		if p.Cancel == "stale" {
+			// waiter 0's context was cancelled BEFORE its deadline, which has passed by the time it
+			// calls Wait: the context's error is Canceled, not DeadlineExceeded
+			ctxs[0], cancels[0] = context.WithDeadline(context.Background(), time.Now().Add(2*time.Millisecond))
+			cancels[0]()
+			cancelled[0] = true
+		}
 		var wg sync.WaitGroup
 		for i := 0; i < p.K+p.Late; i++ {
 			i := i
@@ -66,6 +85,9 @@ func (p Params) Body() func() {
 				defer wg.Done()
 				if i >= p.K {
 					<-allEntered
+				}
+				if p.Cancel == "stale" && i == 0 {
+					hx.Sleep(5 * time.Millisecond)
 				}
 				l.Lock()
 				err := c.Wait(ctxs[i])
@@ -95,6 +117,15 @@ func (p Params) Body() func() {
 				<-entered
 			}
 			close(allEntered)
+			if p.Both {
+				wg.Add(1)
+				go func() {
+					defer wg.Done()
+					for i := 0; i < p.M; i++ {
+						c.Signal()
+					}
+				}()
+			}
 			if p.Broadcast {
 				c.Broadcast()
 			} else {
@@ -103,7 +134,7 @@ func (p Params) Body() func() {
 				}
 			}
 		}()
-		if p.Cancel != "" {
+		if p.Cancel != "" && p.Cancel != "stale" {
 			wg.Add(1)
 			go func() {
 				defer wg.Done()
@@ -218,6 +249,12 @@ func All() []Params {
 		Params{K: 1, M: 1, Prior: 1},
 		Params{K: 2, M: 1, Prior: 1},
 		Params{K: 1, Broadcast: true, Prior: 1},
+		Params{K: 2, M: 1, Cancel: "stale"},
+		Params{K: 1, Broadcast: true, Cancel: "stale"},
+		Params{K: 2, Broadcast: true, Prior: 1, Shared: true},
+		Params{K: 2, M: 1, Prior: 1, Shared: true},
+		Params{K: 1, M: 1, Broadcast: true, Both: true},
+		Params{K: 2, M: 2, Broadcast: true, Both: true},
 		Params{K: 1, Broadcast: true, Late: 1},
 		Params{K: 2, Broadcast: true, Late: 1},
 	)
